@@ -24,6 +24,11 @@ TIMES = 'history/times.py'; HFILES = 'history/files.py'; TNETS = 'server/tnetstr
 POLL = 'server/enip/poll.py'; DEFAULTS = 'server/enip/defaults.py'; NETWORK = 'server/network.py'
 
 VARIANTS = [
+    V( 'strlen-largest-count-refused', PARSER, 'assert value.length < 1<<8, "SSTRING must be < 256 bytes in length; %r" % value', 'assert value.length < 0xFF, "SSTRING must be < 256 bytes in length; %r" % value', fires=[ 'L-STRLEN' ] ),
+    V( 'strlen-bound-as-constant', PARSER, 'assert value.length < 1<<16, "STRING must be < 65536 bytes in length; %r" % value', 'assert value.length <= 0xFFFF, "STRING must be < 65536 bytes in length; %r" % value', silent=[ 'L-STRLEN' ] ),
+    V( 'resolve-empty-rest-dropped', DOT, "rest = rest if sep else None", "rest	= rest or None", fires=[ 'D-RESOLVE' ] ),
+    V( 'gateway-abandoned-generator-left-suspended', GETATTR, "results.close()\n raise", "raise", fires=[ 'P-GATEWAY' ] ),
+    V( 'routetext-null-element-ends-the-walk', DEVICE, "pl = next( pls, end )\n while pl is not end:", "pl			= next( pls, None )\n        while pl:", fires=[ 'T-ROUTETEXT' ] ),
     V( 'bool-scaled-value', PARSER, "encoding = super( BOOL, cls ).produce( value )\n return encoding if encoding == b'\\x00' else b'\\xff'", "return super( BOOL, cls ).produce( 0xff * value )", fires=[ 'T-BOOL' ] ),
     V( 'bool-by-truthiness', PARSER, "encoding = super( BOOL, cls ).produce( value )\n return encoding if encoding == b'\\x00' else b'\\xff'", "return super( BOOL, cls ).produce( 0xff if value else 0x00 )", silent=[ 'T-BOOL' ] ),
     V( 'one-context-shown-in-stats', MAIN, "if 'request' in data:\n stats['requests'] += 1\n try:\n # enip_process must be able to handle no request", "if 'request' in data:\n                    stats['requests'] += 1\n                    stats['context']	= bytes( bytearray( data.request.enip.sender_context.input )).decode( 'utf-8' )\n                try:\n                    # enip_process must be able to handle no request", fires=[ 'P-ONE' ] ),
@@ -279,7 +284,7 @@ VARIANTS = [
     V( 'route-path-canonicalised-before-test', UCMM, 'pl = "{port}/{link}".format( **route_path[0] )', 'pl	= "{port}/{link}".format( **device.port_link( route_path[0] ))', fires=[ 'D-REFUSE' ] ),
     V( 'state-keeps-payload', DEVICE, "def closure():\n \"\"\"Closure capturing data,", "self.payload		= target,path,data\n        def closure():\n            \"\"\"Closure capturing data,", fires=[ 'R-STATELESS' ] ),
     # ---- round-2 rules (second half)
-    V( 'unpack-unguarded-split', DOT, "ext,_,rest= rest.partition( '.' ) # the closing bracket may be in the last segment\n rest = rest or None", "ext,rest= rest.split( '.', 1 )", fires=[ 'D-UNPACK' ], why='defect N' ),
+    V( 'unpack-unguarded-split', DOT, "ext,sep,rest= rest.partition( '.' ) # the closing bracket may be in the last segment\n rest = rest if sep else None # (a '.' behind it leaves a rest, even an empty one)", "ext,rest= rest.split( '.', 1 )", fires=[ 'D-UNPACK' ], why='defect N' ),
     V( 'cache-not-invalidated', TIMES, "self.value += rhs\n self._str = None", "self.value	       += rhs", fires=[ 'T-CACHE' ] ),
     V( 'cache-copy-then-mutate', TIMES, "if rhs:\n return timestamp( self.value + rhs )\n return timestamp( self )", "result			= timestamp( self )\n        if rhs:\n            result.value       += rhs\n        return result", fires=[ 'T-CACHE' ] ),
     V( 'ext-status-kept-on-partial', LOGIX, "data.status = 0x00 if completed else 0x06\n data.pop( 'status_ext' ) # non-empty dotdict level; use pop instead of del", "data.status		= 0x00 if completed else 0x06\n                if not data.status:\n                    data.pop( 'status_ext' )", fires=[ 'S-EXT' ] ),
